@@ -6,8 +6,10 @@
    One table  t(id INTEGER [AUTO_INCREMENT] PRIMARY KEY, v INTEGER [NOT NULL], s VARCHAR[maxlen])
    with optional CHECK (v >= 0), optional UNIQUE index on v, optional non-unique index on s.
 
-   This file contains definitions only (no proofs).  The record [fixes] selects, per defect found,
-   between the code as it is ([cur_code]) and the code with the proposed repair ([fixed_code]). *)
+   This file contains definitions only (no proofs).  The record [fixes] selects, per defect found by
+   this check, between the code before its repair and the code with it: [fixed_code] is the code as
+   it is now (repairs committed in /repo as c876bb2, 12bf3b7, a77403f); [old_code] is the code before
+   them, kept so that the refutation witnesses of SQLCons/Refuted.v stay checkable. *)
 From V Require Export Base.Hex.
 From Coq Require Import ZArith.
 Open Scope N_scope.
@@ -17,7 +19,7 @@ Inductive val := VNull | VInt (z : Z) | VStr (s : bytes).
 Record row := mkRow { r_v : val; r_s : val }.
 Record cfg := mkCfg { k_autoinc : bool; k_notnull : bool; k_maxlen : N; k_check : bool }.
 Record fixes := mkFix { fx_unique : bool; fx_notnull : bool; fx_check : bool }.
-Definition cur_code : fixes := mkFix false false false.
+Definition old_code : fixes := mkFix false false false.
 Definition fixed_code : fixes := mkFix true true true.
 
 (* error classes (only ok / error is compared with the implementation) *)
